@@ -183,6 +183,8 @@ def scenarios(tier):
         # an interrupted change of a function in use, followed by another (uninterrupted) change
         Scenario("register-interrupted/then-register", BASE, SIGMA[:4], _warm([k1, 5]), _register(8),
                  [ids(BASE) + (9,), ids(BASE) + (8, 9)], post=_register(9), entries=(0,)),
+        CopyScenario("copy-first-call-interrupted/then-register-on-its-parent", BASE, SIGMA[:4], _noop, _first_call("ovld", k1),
+                     [ids(BASE) + (9,)], post=_register_on_parent(9), entries=(0,)),
         LinkedScenario("rebuild/linked-children-of-unbuilt-parent", BASE, SIGMA[:3], _noop, _register_on_parent(8), [ids(BASE), ids(BASE) + (8,)]),
     ]
     if tier != "quick":
@@ -223,6 +225,24 @@ class LinkedScenario(Scenario):
             gen.run_call(getattr(c, "dispatch", c), (5,), {}, [])
         st = {"prog": child, "parent": parent, "c1": c1}
         return st
+
+
+class CopyScenario(Scenario):
+    """A parent and a plain (non-linked) copy of it, neither used yet.  The faulted operation is the copy's first call;
+    afterwards a method is registered on the PARENT: if the copy is in service the parent must be locked (the
+    registration is refused: nothing to probe), and if the registration is accepted the copy must serve the new set."""
+
+    def setup(self):
+        allspecs = self.mspecs + [m for m in EXTRAS if m["id"] not in {x["id"] for x in self.mspecs}]
+        parent = gen.Program(CLASSES, allspecs, annotate=self.annotate, register=False)
+        for m in self.mspecs:
+            parent.ov.register(parent.fns[m["id"]], priority=m.get("prio", 0))
+        c = parent.ov.copy()
+        child = gen.Program(CLASSES, [], annotate=self.annotate)
+        child.ov = c
+        child.log = parent.log
+        child.fref[0] = c
+        return {"prog": child, "parent": parent}
 
 
 def _register_on_parent(mid):
